@@ -4,7 +4,7 @@ import re
 LINE = re.compile(r'^(\d+)\s+(.*)$')
 UNF = re.compile(r'^(\w+)\((.*) <unfinished \.\.\.>$')
 RES = re.compile(r'^<\.\.\. (\w+) resumed>(.*)$')
-FULL = re.compile(r'^(\w+)\((.*)\)\s+= (-?\d+|\?|0x[0-9a-f]+)(?:<((?:[^<>\\]|\\.)*)>)?(?: (E\w+) \(([^)]*)\))?( \(INJECTED\))?\s*$')
+FULL = re.compile(r'^(\w+)\((.*)\)\s+= (-?\d+|\?|0x[0-9a-f]+)(?:<((?:[^<>\\]|\\.)*)>)?(?: (E\w+) \(([^)]*)\))?((?: \((?:INJECTED|DELAYED)\))*)\s*$')
 EXIT = re.compile(r'^\+\+\+ (exited with (\d+)|killed by (\w+)(?: \(core dumped\))?) \+\+\+$')
 FD = re.compile(r'^(-?\d+)(?:<(.*)>)?$', re.S)
 
@@ -98,7 +98,7 @@ def parse(path):
             ret = fm.group(3)
             recs.append(dict(kind='sys', seq_call=callseq, seq_ret=retseq, tid=tid, sys=fm.group(1),
                              args=split_args(fm.group(2)), ret=None if ret == '?' else int(ret, 0),
-                             retpath=fm.group(4), errno=fm.group(5) or "", inj=bool(fm.group(7))))
+                             retpath=fm.group(4), errno=fm.group(5) or "", inj="INJECTED" in (fm.group(7) or "")))
     # calls that never returned (process killed): keep as call-only
     for tid, (cn, sysname, prefix) in pending.items():
         recs.append(dict(kind='sys', seq_call=cn, seq_ret=None, tid=tid, sys=sysname, args=split_args(prefix),
